@@ -53,6 +53,32 @@ pub fn line(out: Option<&str>, cmd: &str, args: &[String]) -> Vec<String> {
 const FLAGS: [&str; 3] = ["fa", "fb", "fc"];
 const VALS: [&str; 4] = ["red", "blue", "7", "x1"];
 
+/// boolean expression over flags / literals with `and`, `or` and parenthesised groups in every
+/// position (first, after `or`, after `and`, nested, empty)
+fn gen_bool_expr(g: &mut Gen, depth: usize) -> Vec<String> {
+    let n = 1 + g.rng.below(4);
+    let mut out: Vec<String> = vec![];
+    for i in 0..n {
+        if i > 0 {
+            out.push(if g.rng.chance(1, 2) { "and".into() } else { "or".into() });
+        }
+        if depth < 2 && g.rng.chance(1, 3) {
+            out.push("(".into());
+            if !g.rng.chance(1, 8) {
+                out.extend(gen_bool_expr(g, depth + 1));
+            }
+            out.push(")".into());
+        } else {
+            out.push(match g.rng.below(4) {
+                0 => "true".to_string(),
+                1 => "false".to_string(),
+                _ => format!("${{{}}}", g.rng.pick_s(&FLAGS)),
+            });
+        }
+    }
+    out
+}
+
 pub fn gen_cond(g: &mut Gen) -> Vec<String> {
     // conditions whose evaluation is OBSERVABLE: `emit` in command position logs its arguments
     // and yields no value (falsy); `not emit …` is truthy. A condition that is evaluated although
@@ -68,7 +94,7 @@ pub fn gen_cond(g: &mut Gen) -> Vec<String> {
         1 => vec!["false".into()],
         2 => vec![format!("${{{}}}", g.rng.pick_s(&FLAGS))],
         3 => vec![format!("${{{}}}", g.rng.pick_s(&FLAGS)), if g.rng.chance(1, 2) { "and".into() } else { "or".into() }, format!("${{{}}}", g.rng.pick_s(&FLAGS))],
-        4 => vec!["(".into(), format!("${{{}}}", g.rng.pick_s(&FLAGS)), "or".into(), "false".into(), ")".into(), "and".into(), format!("${{{}}}", g.rng.pick_s(&FLAGS))],
+        4 => gen_bool_expr(g, 0),
         5 => vec!["equals".into(), "${v0}".into(), g.rng.pick_s(&VALS).to_string()],
         6 => vec!["not".into(), "equals".into(), "${v1}".into(), g.rng.pick_s(&VALS).to_string()],
         7 => vec!["not".into(), format!("${{{}}}", g.rng.pick_s(&FLAGS))],
